@@ -51,7 +51,18 @@ def scope_tree(rng, depth=3, exit_causes=True):
                 prog.append(log())
         if rng.random() < 0.2:
             prog.append(['ret', rng.randint(1, 9)])
+        if rng.random() < 0.25 and cur_scope:
+            # clean-up code that runs however the child ends (also when it is closed): synchronous only
+            cl = [log()]
+            if rng.random() < 0.6:
+                t = names['task']
+                names['task'] += 1
+                cl.append(['spawn', cur_scope[-1], t, None, None, False, ['prog', log(), ['sleep', 1], log()]])
+            ret = [prog.pop()] if prog and prog[-1][0] == 'ret' else []
+            prog = [['finally', ['body'] + prog, ['cleanup'] + cl]] + ret
         return prog
+
+    cur_scope = []
 
     def scope(d):
         s = names['scope']
@@ -62,6 +73,7 @@ def scope_tree(rng, depth=3, exit_causes=True):
                              ['cond', ['after', rng.choice([0, 1, 2])]], ['cond', ['moment', rng.choice([0, 1, 2, 3])]]])
         body = []
         kids = []
+        cur_scope.append(s)
         for _ in range(rng.randint(0, 3)):
             t = names['task']
             names['task'] += 1
@@ -83,6 +95,7 @@ def scope_tree(rng, depth=3, exit_causes=True):
                 body.append(['status', rng.choice(kids)])
             else:
                 body.append(log())
+        cur_scope.pop()
         stmt = ['scope', s, un] + body
         out = ['try', ['body', stmt], ['handler', ['pats', 'concurrent', 'anyException', ['user', 5]], ['body', log()]]]
         return out
@@ -93,4 +106,35 @@ def scope_tree(rng, depth=3, exit_causes=True):
     if rng.random() < 0.5 and names['task']:
         roots.append(['prog', ['sleep', rng.choice([0, F(1, 2), 1, 2])]] + [['sleep', 0]] * rng.randint(0, 3) +
                      [['cancel', rng.randrange(names['task']), 7]])
+    rng.shuffle(roots)
     return ['scenario', ['debug', 1], ['start', rng.choice([0, 0, 1])], ['flags', 2], ['locks', 0], ['roots'] + roots]
+
+
+def cancel_cleanup(rng):
+    """tasks whose code cleans up asynchronously when cancelled (`finally` with awaits), cancelled
+    once or several times - before start, while suspended, during the clean-up, after the end.
+    Only cancellations strike here (no closes: a clean-up that awaits must not be closed)."""
+    n = rng.randint(1, 3)
+    body = []
+    for t in range(n):
+        work = [['log', 10 + t], ['sleep', rng.choice([1, 2, 5])], ['log', 20 + t]]
+        cleanup = [['log', 30 + t]] + ([['sleep', rng.choice([F(1, 2), 1, 2])], ['log', 40 + t]] if rng.random() < 0.7 else [])
+        prog = [['finally', ['body'] + work, ['cleanup'] + cleanup]]
+        if rng.random() < 0.4:
+            prog.append(['ret', t + 1])
+        body.append(['spawn', 0, t, rng.choice([None, None, F(1, 2)]), None, False, ['prog'] + prog])
+    for t in range(n):
+        if rng.random() < 0.5:
+            body.append(['status', t])
+    roots = [['prog', ['scope', 0, ['none']] + body + [['sleep', rng.choice([0, 1])]],
+              ['log', 1]] + [['status', t] for t in range(n)]]
+    for _ in range(rng.randint(1, 3)):
+        t = rng.randrange(n)
+        prog = [['sleep', rng.choice([0, F(1, 2), 1, 1, 2, 3])]] + [['sleep', 0]] * rng.randint(0, 3) + [['cancel', t, rng.randint(1, 9)]]
+        if rng.random() < 0.5:
+            prog += [['sleep', rng.choice([0, F(1, 2), 1])], ['cancel', t, rng.randint(10, 19)]]
+        if rng.random() < 0.5:
+            prog += [['try', ['body', ['awaittask', t]], ['handler', ['pats', 'taskCancelled'], ['body', ['log', 50]]]]]
+        roots.append(['prog'] + prog)
+    rng.shuffle(roots)
+    return ['scenario', ['debug', 1], ['start', 0], ['flags', 1], ['locks', 0], ['roots'] + roots]
